@@ -1,4 +1,5 @@
 import BeyondVerif.Model.JplF
+import BeyondVerif.Generated.JplArgF
 import BeyondVerif.Model.SolarSystemF
 import BeyondVerif.Drv.Util
 namespace BeyondVerif.Drv.C18
@@ -128,6 +129,12 @@ def handle : List String → Option String
       | none => "bad-op"
     | _, _, _ => "bad-op"
   | "seq" :: rest => some (handleSeq rest)
+  | "jdarg" :: rest => some <|
+    -- `jdarg <caller d> <caller s> <tdb d> <tdb s>`: the argument `JplPropagator.propagate` hands to jplephem (expression
+    -- read from the source) for a caller's date and its TDB conversion, each seen through `Date.d`, `Date.s`
+    match takeFloats 4 rest with
+    | some ([cd, cs, td, ts], _) => fToStr (JplArg.kernelArg ⟨cd, cs⟩ ⟨td, ts⟩)
+    | _ => "bad-op"
   | "sun" :: rest => some <|
     match takeFloats 3 rest with
     | some ([tm, t0, tp], _) => fsToStr (Solar.sunState tm t0 tp)
